@@ -108,10 +108,11 @@ class AntiSymmetricTensor(SymbolicTensor):
                 return True
             elif spin_l == spin_u:  # diagonal spin block
                 # compare the names of indices
+                # (the full name breaks the tie between e.g. i and i0)
                 lower_names = [(int(s.name[1:]) if s.name[1:] else 0,
-                               s.name[0]) for s in lower]
+                               s.name[0], s.name) for s in lower]
                 upper_names = [(int(s.name[1:]) if s.name[1:] else 0,
-                               s.name[0]) for s in upper]
+                               s.name[0], s.name) for s in upper]
                 if lower_names < upper_names:
                     return True
         return False
